@@ -682,6 +682,35 @@ def oracle_c02(case, obs, res):
                 if getattr(v, "exit_status", None) != "success" or getattr(v, "interrupted", None) is not False:
                     res.fail("result_object_disagrees", f"RunEngineResult {v}", **F(cause=cause))
     res.nontrivial = judged >= 1 and cause != "none"
+    # "a failed status surfaces as FailedStatus": a single status that failed before the plan's wait on its group
+    # ended must have been thrown into the plan -- otherwise the failure silently vanished (and with it the 'fail'
+    # status and the re-raised exception this property is about)
+    ys = obs.plog.yields
+    failed = [info for (_, _dev, op, info) in obs.world.ledger if op == "status_done" and info[2] is False]
+    failed_at = [L for (L, _dev, op, info) in obs.world.ledger if op == "status_done" and info[2] is False]
+    if len(failed) == 1 and cause in ("none",):
+        st = obs.world.results.get(failed[0][1])
+        sexc = getattr(st, "_exc", None)
+        delivered = any(
+            y.get("thrown") is not None
+            and (y["thrown"] is sexc or getattr(y["thrown"], "__cause__", None) is sexc or (getattr(y["thrown"], "args", None) and y["thrown"].args[0] is st))
+            for y in ys
+        )
+        src = next((y for y in ys if y.get("resp") is st), None)
+        if not delivered and src is not None and src["msg"].kwargs.get("group") is not None:
+            g = src["msg"].kwargs["group"]
+            w = next(
+                (y for y in ys[src["i"] + 1 :] if y["msg"].command == "wait" and (y["msg"].kwargs.get("group") == g or (y["msg"].args and y["msg"].args[0] == g))),
+                None,
+            )
+            if w is not None and "resp" in w and not w["msg"].kwargs.get("watch") and w.get("ledger_after") is not None and w["ledger_after"] > failed_at[0]:
+                res.nontrivial = True
+                res.fail(
+                    "failed_status_vanished",
+                    f"{st!r} (created by yield {src['i']} {src['msg'].command}, group {g!r}) failed before the plan's wait on that group "
+                    f"(yield {w['i']}) ended, yet the wait returned {w['resp']!r} and no FailedStatus was ever thrown into the plan",
+                    **F(cause=cause),
+                )
     return res
 
 
